@@ -339,6 +339,12 @@ func (e *wshsEnv) handshake(p wshsPlan) {
 	state, pending := wshsState(e.s), e.s.Pending()
 
 	frame := "none"
+	asyncOK := true
+	if err == nil {
+		// the asynchronous paths of the new session work: a flush with nothing to send completes at once
+		asyncOK = false
+		e.s.AsyncFlush(func(error) { asyncOK = true })
+	}
 	if err == nil && (len(p.trail) > 0 || p.closeAt >= 0) {
 		_ = e.s.Flush()
 		f, ferr := e.s.NextFrame()
@@ -353,6 +359,9 @@ func (e *wshsEnv) handshake(p wshsPlan) {
 		}
 	} else if err == nil {
 		_ = e.s.Flush()
+	}
+	if !asyncOK {
+		frame = "err other" // (reported in place of the first frame: the new session does not behave like a fresh one)
 	}
 	done <- err != nil
 	res := <-out
@@ -402,13 +411,21 @@ func wshsRun(script []string, w *bufio.Writer) {
 				panic(err)
 			}
 			_, _ = e.s.NextFrame()
+			inflight := 0
+			if len(f) > 1 && f[1] == "inflight" {
+				// ... and whose asynchronous flush of that pong never completed: the application dropped the transport with the
+				// write in flight (the frame has left the queue, so it is added to the count reported below)
+				ms.deferWrites = true
+				e.s.AsyncFlush(func(error) {})
+				inflight = 1 - e.s.Pending()
+			}
 			if len(f) > 1 && f[1] == "dst" {
 				// ... and whose transport failed while the pong was being flushed (same observable state, plus stale bytes in
 				// the write buffer)
 				ms.writeErr = io.ErrClosedPipe
 				_ = e.s.Flush() // fails: the pong stays queued and its encoding stays in the write buffer
 			}
-			fmt.Fprintf(w, "< stale %s %d\n", wshsState(e.s), e.s.Pending())
+			fmt.Fprintf(w, "< stale %s %d\n", wshsState(e.s), e.s.Pending()+inflight)
 		case "hs":
 			e.handshake(wshsParse(f[1:]))
 		default:
@@ -570,7 +587,7 @@ func wshsGen(r *rng, maxops int, w *bufio.Writer) {
 	n := 1 + r.intn(maxops)
 	for i := 0; i < n; i++ {
 		if r.intn(5) == 0 {
-			fmt.Fprintf(w, "! stale%s\n", r.pickS("", " dst"))
+			fmt.Fprintf(w, "! stale%s\n", r.pickS("", " dst", " inflight"))
 		}
 		mode := r.pickS("sync", "sync", "async")
 		head, status, upg, acc, parse := wshsResponse(r, r.intn(3) == 0)
